@@ -98,7 +98,7 @@ def build_jobs(tier, seed, stats, want_ops=True):
         jobs.append((b, f"G+T enum[{sname}]"))
     # ---- random: bundled schemas and variants
     n_docs = 25 if not thorough else 250
-    for name in schemas.BUNDLED_PLUS + ["s1", "s3", "s4"]:
+    for name in schemas.BUNDLED_PLUS + ["s1", "s3", "s4", "bm"]:
         sch, js, pairs = universe.random_docs(name, n_docs, rng)
         slices = []
         for toks, rd in pairs:
